@@ -255,6 +255,12 @@ def run(ctx: Context, rep) -> None:
                f"written to ({recv})")
     from sa.rules import shared
     shared.check_no_memo(ctx, rep, "C11.memo")
+    # merging never drops a list that is not superseded (same check as
+    # C08.dedup): selection by metadata sees every shard written
+    from sa.rules import shared as _sh11b
+    _sh11b.share_rules(ctx, rep, "c08", {"C08.dedup": "C11.merge"})
+    from sa.rules import shared as _shl
+    _shl.check_log_args_pure(ctx, rep, "C11.log")
     # "selecting shards by metadata returns all and only the examples
     # written under that metadata": the predicate / per-metadata limit must
     # reach the selection routine on every interface (same rule as C12.forward)
